@@ -33,6 +33,13 @@ inductive FOp where
   | inv (a : Nat)        -- summarised Invert (0 ↦ 0); its body is the target `Invert`
   | sqrtV (a b : Nat)    -- summarised SqrtRatioI: the root …
   | sqrtOk (a b : Nat)   -- … and the was-square flag
+  -- 32-byte encodings (values: the little-endian integer of the string, < 2^256)
+  | bytesConst (n : Nat)
+  | fromBytes (a : Nat)  -- Element.SetBytes: bit 255 ignored, then reduced
+  | toBytes (a : Nat)    -- Element.ToBytes: the canonical encoding
+  | topBit (a : Nat)     -- b[31] >> 7
+  | xorTop (a b : Nat)   -- b[31] ^= bit << 7
+  | bytesEq (a b : Nat)  -- ConstantTimeCompareBytes
   deriving Repr, DecidableEq, Inhabited
 
 def sq2 (a : Nat) : Nat := Fp.add (Fp.sq a) (Fp.sq a)
@@ -49,6 +56,14 @@ def bxor (a b : Nat) : Nat := a ^^^ b
 def sel (c a b : Nat) : Nat := if c = 0 then a else b
 def sqrtV (u v : Nat) : Nat := (Fp.sqrtRatioM1 u v).2
 def sqrtOk (u v : Nat) : Nat := if (Fp.sqrtRatioM1 u v).1 then 1 else 0
+
+def fromBytes (b : Nat) : Nat := (b % 2^255) % p
+def toBytes (a : Nat) : Nat := a % p
+def topBit (b : Nat) : Nat := b / 2^255 % 2
+def xorTop (b c : Nat) : Nat := b ^^^ (c <<< 255)
+def bytesEq (a b : Nat) : Nat := if a = b then 1 else 0
+/-- a Go condition on a predicate value: `(v != 0) != neg` -/
+def cond (v : Nat) (neg : Bool) : Bool := (v != 0) != neg
 
 abbrev Env := List Nat
 def get (e : Env) (i : Nat) : Nat := e.getD i 0
@@ -74,6 +89,12 @@ def FOp.eval (e : Env) : FOp → Nat
   | .inv a => Fp.inv (get e a)
   | .sqrtV a b => FIR.sqrtV (get e a) (get e b)
   | .sqrtOk a b => FIR.sqrtOk (get e a) (get e b)
+  | .bytesConst n => n
+  | .fromBytes a => FIR.fromBytes (get e a)
+  | .toBytes a => FIR.toBytes (get e a)
+  | .topBit a => FIR.topBit (get e a)
+  | .xorTop a b => FIR.xorTop (get e a) (get e b)
+  | .bytesEq a b => FIR.bytesEq (get e a) (get e b)
 
 def run : List FOp → Env → Env
   | [], e => e
@@ -83,6 +104,21 @@ def run : List FOp → Env → Env
 def exec (prog : List FOp) (outs : List Nat) (inputs : Env) : List Nat :=
   let e := run prog inputs
   outs.map (get e)
+
+/-- Functions that branch on predicate values (error returns): a decision tree whose segments are straight-line programs.
+`none` = the function returned an error. -/
+inductive FTree where
+  | leaf (ops : List FOp) (ok : Bool) (outs : List Nat)
+  | node (ops : List FOp) (c : Nat) (neg : Bool) (t e : FTree)
+  deriving Repr, Inhabited
+
+def FTree.evalEnv : FTree → Env → Option (List Nat)
+  | .leaf ops ok outs, e => if ok then some (outs.map (get (run ops e))) else none
+  | .node ops c neg t f, e =>
+    let e' := run ops e
+    if cond (get e' c) neg then t.evalEnv e' else f.evalEnv e'
+
+def FTree.eval (t : FTree) (inputs : Env) : Option (List Nat) := t.evalEnv inputs
 
 /-! ## Limb-bound chaining
 
@@ -100,6 +136,7 @@ def Bnd.max (a b : Bnd) : Bnd := (a.zip b).map (fun (x, y) => Nat.max x y)
 
 structure Contract where
   word : Nat           -- limb additions must stay below 2^word
+  setBytesPost : Bnd   -- what SetBytes returns
   mulPre : Bnd
   mulPost : Bnd
   sqPre : Bnd
@@ -119,12 +156,17 @@ structure Contract where
 inductive BVal where
   | fe (b : Bnd)
   | bool
+  | bytes
   deriving Repr, Inhabited
 
 def bget (e : List BVal) (i : Nat) : Option Bnd :=
   match e.getD i .bool with
   | .fe b => some b
-  | .bool => none
+  | _ => none
+def bisBytes (e : List BVal) (i : Nat) : Bool :=
+  match e[i]? with
+  | some .bytes => true
+  | _ => false
 def bisBool (e : List BVal) (i : Nat) : Bool :=
   match e[i]? with
   | some .bool => true
@@ -177,6 +219,14 @@ def FOp.babs (C : Contract) (e : List BVal) : FOp → Option BVal
   | .sqrtOk a b => do
       let x ← bget e a; let y ← bget e b
       if x.le C.mulPre && y.le C.mulPre then some .bool else none
+  | .bytesConst _ => some .bytes
+  | .fromBytes a => if bisBytes e a then some (.fe C.setBytesPost) else none
+  | .toBytes a => do
+      let x ← bget e a
+      if x.le C.toBytesPre then some .bytes else none
+  | .topBit a => if bisBytes e a then some .bool else none
+  | .xorTop a b => if bisBytes e a && bisBool e b then some .bytes else none
+  | .bytesEq a b => if bisBytes e a && bisBytes e b then some .bool else none
 
 def brun (C : Contract) : List FOp → List BVal → Option (List BVal)
   | [], e => some e
@@ -184,15 +234,32 @@ def brun (C : Contract) : List FOp → List BVal → Option (List BVal)
       let v ← op.babs C e
       brun C ops (e ++ [v])
 
-/-- every leaf call stays inside its proved precondition when the inputs are within `pre` (elements; `none` = a
-predicate input), and every output element is within its entry of `post` -/
-def bcheck (C : Contract) (prog : List FOp) (outs : List Nat) (pre : List (Option Bnd)) (post : List (Option Bnd)) : Bool :=
-  match brun C prog (pre.map fun | some b => .fe b | none => .bool) with
+def outsOK (e : List BVal) (outs : List Nat) (post : List BVal) : Bool :=
+  outs.length == post.length && (outs.zip post).all fun (i, q) =>
+    match e.getD i .bool, q with
+    | .fe b, .fe q => b.le q
+    | .bool, .bool => true
+    | .bytes, .bytes => true
+    | _, _ => false
+
+/-- every leaf call stays inside its proved precondition when the inputs are within `pre`, and every output element is
+within its entry of `post` (sorts must agree) -/
+def bcheck (C : Contract) (prog : List FOp) (outs : List Nat) (pre post : List BVal) : Bool :=
+  match brun C prog pre with
   | none => false
-  | some e => outs.length == post.length && (outs.zip post).all fun (i, q) =>
-      match e.getD i .bool, q with
-      | .fe b, some q => b.le q
-      | .bool, none => true
-      | _, _ => false
+  | some e => outsOK e outs post
+
+/-- the same along every path of a decision tree (branch conditions must be predicate values; error leaves return nothing) -/
+def tcheckEnv (C : Contract) : FTree → List BVal → List BVal → Bool
+  | .leaf ops ok outs, e, post =>
+    match brun C ops e with
+    | none => false
+    | some e' => !ok || outsOK e' outs post
+  | .node ops c _ t f, e, post =>
+    match brun C ops e with
+    | none => false
+    | some e' => bisBool e' c && tcheckEnv C t e' post && tcheckEnv C f e' post
+
+def tcheck (C : Contract) (t : FTree) (pre post : List BVal) : Bool := tcheckEnv C t pre post
 
 end Voi.FIR
